@@ -203,6 +203,14 @@ func runParRace(o *Out, _ *rand.Rand, thorough bool) {
 		rng := o.CaseRng(ci)
 		c := genCase(rng, fullProfile(4+rng.Intn(8), 1+rng.Intn(3)))
 		c.Solve = &CSolve{Runs: 2 + rng.Intn(3), Starts: rng.Intn(4), Det: rng.Intn(2) == 0, Iters: 300 + rng.Intn(600)}
+		if ci%4 == 2 {
+			// many single-stop units under tight capacities and windows, four runs that are not held at a barrier: the
+			// single-stop best-move search meets rejected cheapest positions all the time (its retry loop and the pooled
+			// containers it hands back are what several runs share through package-level pools)
+			c = genCase(rng, Profile{MaxStops: 12 + rng.Intn(6), MinStopCount: 10, MaxVehicles: 3, Capacity: true, Windows: true, Tight: true})
+			c.Solve = &CSolve{Runs: 4, Starts: 0, Det: false, Iters: 1500 + rng.Intn(1000)}
+			c.feature("tight-single-stop-units-four-free-runs")
+		}
 		if !o.BeginCase(ci, c) {
 			continue
 		}
